@@ -30,6 +30,8 @@ class DocGen:
             else:
                 self.define_at[k] = 1
         self.seen = {}
+        self.ref_sites = []
+        self.def_sites = []
         self.has_forward = any(v > 1 for v in self.define_at.values())
 
     def count_occ(self, k, open_):
@@ -50,14 +52,19 @@ class DocGen:
                 self.count_occ(fk, open_)
 
     def ref(self, k, enclosing):
+        """a reference to named node k written at a place whose enclosing namespace is `enclosing`: the simple name when the
+        namespaces agree, the dotted fullname, or `.Simple` (leading dot = the null namespace) for a null-namespace type --
+        the only spelling that reaches a null-namespace type from inside a namespace"""
         ns, simple = split_name(self.nodes[k].name)
-        if ns == enclosing and self.rng.random() < 0.7:
-            return ("str", simple)
-        if ns is None:
-            if enclosing is None:
-                return ("str", simple)
-            raise Unspellable()        # a null-namespace type cannot be referenced from inside a namespace
-        return ("str", self.nodes[k].name)
+        opts = []
+        if ns == enclosing:
+            opts += ["bare", "bare"]
+        opts.append("dot" if ns is None else "full")
+        c = self.rng.choice(opts)
+        r = ("str", simple if c == "bare" else ("." + simple if c == "dot" else self.nodes[k].name))
+        # every reference written, with the namespace in force there (used to derive near-miss invalid documents)
+        self.ref_sites.append((r, enclosing, k))
+        return r
 
     def name_attrs(self, k, enclosing):
         """-> (list of members, namespace for children)"""
@@ -75,9 +82,14 @@ class DocGen:
                 choices.append("inherit")
                 choices.append("attr-empty")
             else:
-                choices.append("attr-empty")
+                choices += ["attr-empty"] * 3
+            choices.append("dotted-null")
         c = rng.choice(choices)
-        if c == "dotted":
+        if c == "dotted-null":
+            m = [("name", ("str", "." + simple))]            # ".X": dotted name with an empty namespace part = the null namespace
+            if rng.random() < 0.3:
+                m.append(("namespace", ("str", rng.choice(["ignored.ns", enclosing or "ns"]))))
+        elif c == "dotted":
             m = [("name", ("str", full))]
             if rng.random() < 0.3:
                 m.append(("namespace", ("str", rng.choice(["ignored.ns", ""]))))    # ignored when the name is dotted
@@ -135,6 +147,7 @@ class DocGen:
             return self.ref(k, enclosing)
         self.defined.add(k)
         nm, ns = self.name_attrs(k, enclosing)
+        self.def_sites.append((k, enclosing))
         if n.t == "enum":
             return self.members([("type", ("str", "enum"))] + nm + [("symbols", ("arr", [("str", s) for s in n.symbols]))] + ltm + self.extras_for("enum"))
         if n.t == "fixed":
@@ -189,3 +202,362 @@ def to_text(j, rng=None):
 def minified(j):
     return to_text(j, None)
 
+
+# ---------------------------------------------------------------------------------------------
+# Graphs and derived documents aimed at the NAME rules (C07/C08/C09/C19)
+# ---------------------------------------------------------------------------------------------
+import gen as _G
+
+class NameGraphGen:
+    """Valid schemas whose difficulty is in the names: few simple names spread over several namespaces (X, ns.X, ns.sub.X,
+    other.X ... all distinct types, told apart by size / symbols / fields), nested in one another in every
+    (enclosing namespace, own namespace) arrangement, and referenced many times -- directly and through arrays, maps and
+    unions, from inside and outside their namespace, recursively (conditional cycles). Node 0 is the root."""
+    NSS = [None, None, "ns", "ns.sub", "other", "ns2"]
+
+    def __init__(self, rng, n_named=None, n_simple=None, nss=None, logical=False):
+        self.rng = rng
+        self.n_named = n_named or rng.choice([2, 3, 4, 5, 6, 8])
+        self.n_simple = n_simple or rng.choice([1, 2, 2, 4])
+        self.nss = nss or list(dict.fromkeys(rng.sample(self.NSS, rng.choice([2, 3, 4]))))
+        self.logical = logical
+
+    def build(self):
+        rng = self.rng
+        simple = ["X", "Y", "Z", "T"][:self.n_simple]
+        pairs = [(ns, s) for ns in dict.fromkeys(self.nss) for s in simple]
+        rng.shuffle(pairs)
+        pairs = pairs[:self.n_named]
+        n = len(pairs)
+        full = [(ns + "." + s) if ns else s for ns, s in pairs]
+        kinds = ["record"] + [rng.choice(["record", "record", "enum", "fixed"]) for _ in range(n - 1)]
+        nodes = []
+        self.nodes = nodes
+        # named node i lives at index i + off; the root may be a wrapper around named node 0
+        wrap = rng.choice(["none"] * 4 + ["union", "array", "map"])
+        off = {"none": 0, "array": 1, "map": 1, "union": 2}[wrap]
+        if wrap == "array":
+            nodes.append(_G.Node("array", items=1))
+        elif wrap == "map":
+            nodes.append(_G.Node("map", values=1))
+        elif wrap == "union":
+            nodes.append(_G.Node("union", variants=[1, 2]))
+            nodes.append(_G.Node("null"))
+        for i in range(n):
+            if kinds[i] == "record":
+                nodes.append(_G.Node("record", name=full[i], fields=[]))
+            elif kinds[i] == "enum":
+                nodes.append(_G.Node("enum", name=full[i], symbols=["S%d" % i] + ["A", "B"][:rng.randint(0, 2)]))
+            else:
+                lt = None
+                if self.logical and rng.random() < 0.3:
+                    lt = ("decimal", rng.choice([0, 2]), rng.randint(1, 2 * (i + 1)))
+                nodes.append(_G.Node("fixed", name=full[i], size=i + 1, lt=lt))
+        self.kinds, self.off, self.n = kinds, off, n
+        for i in range(n):
+            if kinds[i] == "record":
+                for j in range(rng.randint(1, 4)):
+                    nodes[i + off].fields.append(("f%d" % j, self.slot(i, False, 0, False)))
+        # every named type must be part of the schema: hang the unreachable ones below a reachable record
+        while True:
+            reach = _G.reachable(nodes)
+            missing = [i for i in range(n) if i + off not in reach]
+            if not missing:
+                break
+            i = missing[0]
+            owners = [o for o in range(n) if kinds[o] == "record" and o + off in reach]
+            o = rng.choice(owners)
+            k = i + off
+            if kinds[i] == "record" and i <= o:
+                k = self.container(o, k)
+            nodes[o + off].fields.append(("g%d" % len(nodes[o + off].fields), k))
+        return compact(nodes)
+
+    def pick(self, owner, conditional):
+        c = [i for i in range(self.n) if conditional or self.kinds[i] != "record" or i > owner]
+        return self.rng.choice(c) + self.off if c else None
+
+    def container(self, owner, inner):
+        rng, nodes = self.rng, self.nodes
+        c = rng.choice(["array", "map", "union"]) if nodes[inner].t != "union" else rng.choice(["array", "map"])
+        if c == "array":
+            nodes.append(_G.Node("array", items=inner))
+        elif c == "map":
+            nodes.append(_G.Node("map", values=inner))
+        else:
+            nodes.append(_G.Node("union", variants=[inner]))
+            if rng.random() < 0.5:
+                nodes.append(_G.Node("null"))
+                nodes[-2].variants.insert(rng.randint(0, 1), len(nodes) - 1)
+        return len(nodes) - 1 if nodes[-1].t != "null" else len(nodes) - 2
+
+    def slot(self, owner, conditional, depth, in_union):
+        rng, nodes = self.rng, self.nodes
+        r = rng.random()
+        if r < 0.15 or depth > 3:
+            nodes.append(_G.Node(rng.choice(["int", "string", "long", "null", "bytes"])))
+            return len(nodes) - 1
+        if r < 0.65:
+            k = self.pick(owner, conditional)
+            if k is not None:
+                return k
+        c = rng.choice(["array", "map", "union", "union"] if not in_union else ["array", "map"])
+        k = len(nodes)
+        if c == "array":
+            nodes.append(_G.Node("array", items=0))
+            nodes[k].items = self.slot(owner, True, depth + 1, False)
+        elif c == "map":
+            nodes.append(_G.Node("map", values=0))
+            nodes[k].values = self.slot(owner, True, depth + 1, False)
+        else:
+            nodes.append(_G.Node("union", variants=[]))
+            used = set()
+            for _ in range(rng.randint(1, 4)):
+                v = self.slot(owner, True, depth + 1, True)
+                bk = ("named:" + nodes[v].name) if nodes[v].t in ("record", "enum", "fixed") else nodes[v].t
+                if bk in used:
+                    continue
+                used.add(bk)
+                nodes[k].variants.append(v)
+        return k
+
+def compact(nodes):
+    """drops the nodes not reachable from node 0 (keys renumbered, order kept)"""
+    reach = sorted(_G.reachable(nodes))
+    m = {k: i for i, k in enumerate(reach)}
+    out = []
+    for k in reach:
+        n = nodes[k]
+        if n.t == "array":
+            n.items = m[n.items]
+        elif n.t == "map":
+            n.values = m[n.values]
+        elif n.t == "union":
+            n.variants = [m[v] for v in n.variants]
+        elif n.t == "record":
+            n.fields = [(f, m[fk]) for f, fk in n.fields]
+        out.append(n)
+    return out
+
+def replace_obj(j, target, new):
+    """the document with the (unique, by identity) sub-document `target` replaced"""
+    if j is target:
+        return new
+    if j[0] == "obj":
+        return ("obj", [(k, replace_obj(v, target, new)) for k, v in j[1]])
+    if j[0] == "arr":
+        return ("arr", [replace_obj(v, target, new) for v in j[1]])
+    return j
+
+def resolve_ref(text, enclosing):
+    """fullname a reference designates (Names section of the specification; PcfSpec.spec_fullname)"""
+    if "." in text:
+        ns, _, simple = text.rpartition(".")
+        return (ns + "." + simple) if ns else simple
+    return (enclosing + "." + text) if enclosing else text
+
+def near_miss_unknown(rng, dg, doc):
+    """-> doc' in which ONE reference of doc (generated by dg) is replaced by a name that designates no definition of the
+    document although a type with the same simple name exists in another namespace; None if there is no such spelling"""
+    fulls = {dg.nodes[k].name for k in dg.occ}
+    simples = sorted({split_name(f)[1] for f in fulls})
+    nss = sorted({split_name(f)[0] or "" for f in fulls} | {"ns", ""})
+    sites = list(dg.ref_sites)
+    rng.shuffle(sites)
+    for r, enclosing, k in sites:
+        cands = []
+        for s in simples:
+            cands.append(s)
+            cands.append("." + s)
+            for ns in nss:
+                if ns:
+                    cands.append(ns + "." + s)
+        cands = [c for c in cands if resolve_ref(c, enclosing) not in fulls]
+        if cands:
+            return replace_obj(doc, r, ("str", rng.choice(cands)))
+    return None
+
+def near_miss_duplicate(rng, dg, doc):
+    """-> doc' = a record (in some namespace) holding doc and a SECOND definition of one of its fullnames, spelled relative to that
+    record's namespace in any of the ways a definition can be spelled; None if doc defines no named type"""
+    if not dg.def_sites:
+        return None
+    k, _ = rng.choice(dg.def_sites)
+    wns = rng.choice([None, "ns", "ns.sub", "w", split_name(dg.nodes[k].name)[0]])
+    fulls = {dg.nodes[x].name for x in dg.occ}
+    wname = "W__"
+    one = DocGen(rng, [dg.nodes[k] if dg.nodes[k].t != "record" else _G.Node("record", name=dg.nodes[k].name, fields=[])], extras=0.0)
+    second = one.gen(0, wns)
+    f = [("obj", [("name", ("str", "a")), ("type", None)]), ("obj", [("name", ("str", "b")), ("type", second)])]
+    # doc itself is spelled for a null enclosing namespace: it can only be the first field if W__ is in the null namespace;
+    # otherwise the second definition goes INSIDE doc's enclosing context by wrapping the other way round
+    if wns is None:
+        order = [("a", doc), ("b", second)] if rng.random() < 0.5 else [("b", second), ("a", doc)]
+        return ("obj", [("type", ("str", "record")), ("name", ("str", wname)),
+                        ("fields", ("arr", [("obj", [("name", ("str", fn)), ("type", ft)]) for fn, ft in order]))])
+    inner = ("obj", [("type", ("str", "record")), ("name", ("str", wns + "." + wname)),
+                     ("fields", ("arr", [("obj", [("name", ("str", "b")), ("type", second)])]))])
+    order = [("a", doc), ("w", inner)] if rng.random() < 0.5 else [("w", inner), ("a", doc)]
+    return ("arr", [ft for _, ft in order]) if doc[0] != "arr" and rng.random() < 0.5 else \
+           ("obj", [("type", ("str", "record")), ("name", ("str", "V__")),
+                    ("fields", ("arr", [("obj", [("name", ("str", fn)), ("type", ft)]) for fn, ft in order]))])
+
+def permute(rng, nodes):
+    """the same graph with its nodes stored in another order (node 0 stays the root): node vectors as the builder API allows them,
+    where a named node may sit anywhere and is first reached through any position"""
+    n = len(nodes)
+    order = list(range(1, n))
+    rng.shuffle(order)
+    order = [0] + order                    # new position i holds old node order[i]
+    m = {old: new for new, old in enumerate(order)}
+    out = []
+    for old in order:
+        x = nodes[old]
+        y = _G.Node(x.t, name=x.name, symbols=x.symbols, size=x.size, lt=x.lt)
+        if x.t == "array":
+            y.items = m[x.items]
+        elif x.t == "map":
+            y.values = m[x.values]
+        elif x.t == "union":
+            y.variants = [m[v] for v in x.variants]
+        elif x.t == "record":
+            y.fields = [(f, m[fk]) for f, fk in x.fields]
+        out.append(y)
+    return out
+
+def with_cycle(rng, nodes):
+    """adds a cycle of 1..4 container nodes (array / map / union, sometimes a record = a cycle through a NAMED node, which is
+    expressible) below a record of the graph; the unions on the cycle also hold named types of the graph (written in full the first time
+    round, by reference afterwards) and the record holding the cycle may hold them as well"""
+    nodes = list(nodes)
+    named = [k for k, x in enumerate(nodes) if x.t in ("record", "enum", "fixed")]
+    recs = [k for k in named if nodes[k].t == "record"]
+    if not recs:
+        return nodes
+    klen = rng.choice([1, 1, 2, 2, 3, 4])
+    base = len(nodes)
+    kinds = [rng.choice(["array", "map", "union", "union", "union"] + (["record"] if rng.random() < 0.25 else [])) for _ in range(klen)]
+    for i, c in enumerate(kinds):
+        nxt = base + (i + 1) % klen
+        if c == "array":
+            nodes.append(_G.Node("array", items=nxt))
+        elif c == "map":
+            nodes.append(_G.Node("map", values=nxt))
+        elif c == "record":
+            nodes.append(_G.Node("record", name=rng.choice(["", "ns.", "cyc."]) + "Cy%d" % i, fields=[("next", nxt)]))
+        else:
+            nodes.append(_G.Node("union", variants=[nxt]))
+    extra = []
+    for i, c in enumerate(kinds):
+        k = base + i
+        if c == "union":
+            nxt = nodes[k].variants[0]
+            if nodes[nxt].t == "union":
+                # a union cannot hold a union directly: go through an array
+                nodes.append(_G.Node("array", items=nxt))
+                nodes[k].variants = [len(nodes) - 1]
+            sib = rng.sample(named, min(len(named), rng.choice([0, 1, 1, 2])))
+            for s in sib:
+                nodes[k].variants.insert(rng.randint(0, len(nodes[k].variants)), s)
+            if rng.random() < 0.3:
+                nodes.append(_G.Node("null"))
+                nodes[k].variants.insert(0, len(nodes) - 1)
+    owner = rng.choice(recs)
+    o = nodes[owner]
+    o2 = _G.Node("record", name=o.name, fields=list(o.fields), lt=o.lt)
+    if named and rng.random() < 0.5:
+        o2.fields.append(("id", rng.choice(named) if rng.random() < 0.7 or not [k for k in named if nodes[k].t != "record"] else
+                          rng.choice([k for k in named if nodes[k].t != "record"])))
+    o2.fields.insert(rng.randint(0, len(o2.fields)), ("cyc", base))
+    nodes[owner] = o2
+    return nodes
+
+def cycle_doc(rng):
+    """-> (document, unconditional) : records R0..Rk-1 nested in one another (optionally below an envelope: array / map / union /
+    other records), every record reaching the next one -- and, from the last one or from anywhere, EARLIER ones -- either directly
+    (record-typed field) or through a union / array / map. `unconditional` = some record always contains itself (a cycle made of
+    direct record-typed fields only), wherever that cycle sits: through the outermost record or strictly below it (rho shape),
+    one record or several, with other cycles (conditional or not) next to it. Names in one or several namespaces."""
+    k = rng.choice([1, 2, 2, 3, 3, 4, 5, 7])
+    nss = [rng.choice([None, None, "ns", "ns.sub"]) for _ in range(k)]
+    full = [(nss[i] + "." if nss[i] else "") + "R%d" % i for i in range(k)]
+    direct = set()                  # (i, j): record i has a field whose type is record j itself
+
+    def wrap(t, cond):
+        if not cond:
+            return t
+        c = rng.choice(["union", "union", "array", "map", "deep"])
+        if c == "union":
+            return ("arr", [("str", "null"), t] if rng.random() < 0.7 else [t])
+        if c == "array":
+            return ("obj", [("type", ("str", "array")), ("items", t)])
+        if c == "map":
+            return ("obj", [("type", ("str", "map")), ("values", t)])
+        return ("obj", [("type", ("str", "map")), ("values", ("arr", [("str", "int"), ("obj", [("type", ("str", "array")), ("items", t)])]))])
+
+    def ref(j, enclosing):
+        if nss[j] == enclosing and rng.random() < 0.6:
+            return ("str", "R%d" % j)
+        return ("str", full[j] if nss[j] else ".R%d" % j)
+
+    p_cond = rng.choice([0.0, 0.3, 0.6, 0.85])
+    def rec(i, enclosing):
+        fields = []
+        n_extra = rng.choice([0, 0, 1, 2])
+        slots = ["next"] + ["back"] * n_extra if i + 1 < k else ["back"] * (1 + n_extra)
+        rng.shuffle(slots)
+        if rng.random() < 0.5:
+            slots.insert(rng.randint(0, len(slots)), "prim")
+        for s in slots:
+            cond = rng.random() < p_cond
+            if s == "next":
+                t = rec(i + 1, nss[i])
+                j = i + 1
+            elif s == "back":
+                j = rng.randint(0, i)          # an enclosing record (being defined): a backward reference
+                t = ref(j, nss[i])
+            else:
+                fields.append(("obj", [("name", ("str", "p%d" % len(fields))), ("type", ("str", rng.choice(["int", "string", "null"])))]))
+                continue
+            if not cond:
+                direct.add((i, j))
+            fields.append(("obj", [("name", ("str", "f%d" % len(fields))), ("type", wrap(t, cond))]))
+        if nss[i] is not None:
+            nm = [("name", ("str", full[i]))] if rng.random() < 0.6 or nss[i] != enclosing else [("name", ("str", "R%d" % i))]
+        elif enclosing is None:
+            nm = [("name", ("str", "R%d" % i))]
+        else:
+            nm = [("name", ("str", ".R%d" % i))] if rng.random() < 0.3 else [("name", ("str", "R%d" % i)), ("namespace", ("str", ""))]
+        m = [("type", ("str", "record"))] + nm + [("fields", ("arr", fields))]
+        if rng.random() < 0.3:
+            rng.shuffle(m)
+        return ("obj", m)
+
+    doc = rec(0, None)
+    env = rng.choice(["none", "none", "array", "union", "record", "record2"])
+    if env == "array":
+        doc = ("obj", [("type", ("str", "array")), ("items", doc)])
+    elif env == "union":
+        doc = ("arr", [("str", "null"), doc])
+    elif env in ("record", "record2"):
+        inner = doc
+        if env == "record2":
+            inner = ("obj", [("type", ("str", "record")), ("name", ("str", "Mid")),
+                             ("fields", ("arr", [("obj", [("name", ("str", "m")), ("type", inner)])]))])
+        doc = ("obj", [("type", ("str", "record")), ("name", ("str", "Envelope")),
+                       ("fields", ("arr", [("obj", [("name", ("str", "id")), ("type", ("str", "long"))]),
+                                           ("obj", [("name", ("str", "body")), ("type", inner)])]))])
+    # a directed cycle in `direct`?
+    adj = {}
+    for a, b in direct:
+        adj.setdefault(a, []).append(b)
+    color = {}
+    def dfs(a):
+        color[a] = 1
+        for b in adj.get(a, []):
+            if color.get(b) == 1 or (color.get(b) is None and dfs(b)):
+                return True
+        color[a] = 2
+        return False
+    unconditional = any(color.get(a) is None and dfs(a) for a in range(k))
+    return doc, unconditional
